@@ -23,6 +23,8 @@ pub struct Layer {
     pub guest: Vec<(u64, u8)>,
     pub empty_l2: Vec<u64>,
     pub layout_seed: u64,
+    #[serde(default)]
+    pub junk_tail: u32,
 }
 
 #[derive(Serialize, Deserialize, Clone, Debug, PartialEq)]
@@ -280,6 +282,11 @@ pub fn gen_layer(rng: &mut Rng, o: &GenOpts, cluster_bits: u32, top: bool, idx_i
         guest,
         empty_l2,
         layout_seed: rng.next() ^ idx_in_chain as u64,
+        junk_tail: if builder && top && cluster_bits <= 16 && rng.chance(1, 2) {
+            rng.range(1, 12) as u32
+        } else {
+            0
+        },
     }
 }
 
